@@ -97,7 +97,7 @@ fn one_task(world: &dyn World, prop: &'static str, cfg: &Cfg, worker: u64, cases
             }
         }
         match &run.violation {
-            Some(v) if v.prop == prop => {
+            Some(v) if v.is(prop) => {
                 failed.set(true);
                 Err(TestCaseError::fail(format!("{}: {}", v.kind, v.detail)))
             }
@@ -112,7 +112,7 @@ fn one_task(world: &dyn World, prop: &'static str, cfg: &Cfg, worker: u64, cases
             let mut run = Run::new();
             run.allow_probe = allow_probe;
             world.run(cfg, &ops, &mut run);
-            run.violation.clone().filter(|v| v.prop == prop).map(|violation| Failure { world: world.name(), cfg: *cfg, ops, violation, driver: "random" })
+            run.violation.clone().filter(|v| v.is(prop)).map(|violation| Failure { world: world.name(), cfg: *cfg, ops, violation, driver: "random" })
         }
         Err(TestError::Abort(_)) => None,
     };
@@ -126,7 +126,7 @@ pub fn minimise(world: &dyn World, prop: &str, cfg: &Cfg, mut ops: Vec<Op>, allo
         let mut run = Run::new();
         run.allow_probe = allow_probe;
         world.run(cfg, ops, &mut run);
-        matches!(&run.violation, Some(v) if v.prop == prop)
+        matches!(&run.violation, Some(v) if v.is(prop))
     };
     if !fails(&ops) {
         return ops;
